@@ -106,6 +106,8 @@ ROLES = {
                          f.name != 'fit'),
     '_find_rotation_vector': ('elfi.methods.inference.romc:RegionConstructor', 'method',
                               lambda f: _has(f, 'np.linalg.eig(')),
+    '_define_posterior': ('elfi.methods.inference.romc:ROMC', 'method',
+                          lambda f: bool(_calls(f, 'RomcPosterior'))),
     '_pdf_unnorm_single_point': ('elfi.methods.posteriors:RomcPosterior', 'method',
                                  lambda f: _has(f, 'self.surrogate_used') and
                                  f.name != '__init__'),
